@@ -38,6 +38,7 @@ thread_local! {
     static SPAWNED: RefCell<Option<Vec<Spawned>>> = const { RefCell::new(None) };
     static CLOCK_OFFSET: Cell<Duration> = const { Cell::new(Duration::ZERO) };
     static CLOCK_FROZEN: Cell<Option<Instant>> = const { Cell::new(None) };
+    static CLOCK_SHARED: RefCell<Option<std::sync::Arc<std::sync::atomic::AtomicU64>>> = const { RefCell::new(None) };
 }
 
 /// Start capturing tasks spawned by hyperdriver on this thread.
@@ -89,7 +90,22 @@ pub(crate) mod shim {
 
 /// Clock seam: the real clock (or this thread's frozen instant) plus a per-thread offset.
 pub fn now() -> Instant {
-    CLOCK_FROZEN.with(|c| c.get()).unwrap_or_else(Instant::now) + CLOCK_OFFSET.with(|c| c.get())
+    CLOCK_FROZEN.with(|c| c.get()).unwrap_or_else(Instant::now) + clock_offset()
+}
+
+fn clock_offset() -> Duration {
+    let shared = CLOCK_SHARED.with(|c| c.borrow().as_ref().map(|a| a.load(std::sync::atomic::Ordering::SeqCst)));
+    match shared {
+        Some(nanos) => Duration::from_nanos(nanos),
+        None => CLOCK_OFFSET.with(|c| c.get()),
+    }
+}
+
+/// Make this thread read (and move) its pool-clock offset through a counter of nanoseconds that
+/// several threads share, so that one thread can move the clock while another is in the middle of
+/// a pool operation. `None` goes back to the per-thread offset.
+pub fn share_clock_offset(counter: Option<std::sync::Arc<std::sync::atomic::AtomicU64>>) {
+    CLOCK_SHARED.with(|c| *c.borrow_mut() = counter);
 }
 
 /// Freeze this thread's pool clock at the current instant (offset reset to zero); only
@@ -97,11 +113,21 @@ pub fn now() -> Instant {
 pub fn freeze_clock() {
     CLOCK_FROZEN.with(|c| c.set(Some(Instant::now())));
     CLOCK_OFFSET.with(|c| c.set(Duration::ZERO));
+    CLOCK_SHARED.with(|c| {
+        if let Some(a) = c.borrow().as_ref() {
+            a.store(0, std::sync::atomic::Ordering::SeqCst);
+        }
+    });
 }
 
 /// Move this thread's pool clock forward.
 pub fn advance_clock(by: Duration) {
     CLOCK_OFFSET.with(|c| c.set(c.get() + by));
+    CLOCK_SHARED.with(|c| {
+        if let Some(a) = c.borrow().as_ref() {
+            a.fetch_add(by.as_nanos() as u64, std::sync::atomic::Ordering::SeqCst);
+        }
+    });
 }
 
 /// Reset this thread's pool clock offset.
@@ -112,7 +138,7 @@ pub fn reset_clock() {
 
 /// This thread's pool clock: the frozen instant (if any) and the offset.
 pub fn clock_state() -> (Option<Instant>, Duration) {
-    (CLOCK_FROZEN.with(|c| c.get()), CLOCK_OFFSET.with(|c| c.get()))
+    (CLOCK_FROZEN.with(|c| c.get()), clock_offset())
 }
 
 /// Give this thread the pool clock of another thread (see [`clock_state`]).
@@ -135,6 +161,37 @@ pub fn yield_point(site: &'static str) {
         f(site);
     }
 }
+
+/// Raw mutex of the pool tables under `verif-hooks`: `parking_lot`'s, preceded by a
+/// [`yield_point`] on every blocking acquisition. Putting the seam into the lock itself means
+/// that every acquisition — also one added by a later change — is an interleaving point.
+pub struct YieldRawMutex(parking_lot::RawMutex);
+
+// SAFETY: every method forwards to `parking_lot::RawMutex`, which upholds the contract; the
+// yield point runs before the lock is taken and touches no state of the mutex.
+#[allow(unsafe_code)]
+unsafe impl parking_lot::lock_api::RawMutex for YieldRawMutex {
+    #[allow(clippy::declare_interior_mutable_const)]
+    const INIT: Self = YieldRawMutex(<parking_lot::RawMutex as parking_lot::lock_api::RawMutex>::INIT);
+    type GuardMarker = <parking_lot::RawMutex as parking_lot::lock_api::RawMutex>::GuardMarker;
+
+    fn lock(&self) {
+        yield_point("pool mutex");
+        parking_lot::lock_api::RawMutex::lock(&self.0)
+    }
+
+    fn try_lock(&self) -> bool {
+        parking_lot::lock_api::RawMutex::try_lock(&self.0)
+    }
+
+    unsafe fn unlock(&self) {
+        // SAFETY: forwarded under the caller's guarantee that the lock is held.
+        unsafe { parking_lot::lock_api::RawMutex::unlock(&self.0) }
+    }
+}
+
+/// The pool's mutex type under `verif-hooks`.
+pub type YieldMutex<T> = parking_lot::lock_api::Mutex<YieldRawMutex, T>;
 
 /// Address family preference, mirroring the crate-private use in the TCP transport.
 pub use crate::client::conn::dns::IpVersion;
